@@ -801,6 +801,9 @@ def c17(tier):
             w = cli.SAMPLE_WORDS.get(codec, "x")
             words = w.split()
             body = t + f"\n// {w}\nS := '{words[0]}';\n" + (f"{words[0]}x := 1;\n" if words[0].isidentifier() else "")
+            if (i + len(label)) % 4 == 0:
+                # large files: every size class of the internal buffers (16 KiB, 64 KiB, 256 KiB) is crossed with multi-byte text around
+                body = "\n".join(f"// {w} {k} {w * (1 + k % 3)}\nS{k} := '{words[0]}{k}';" for k in range(rnd.choice([300, 1200, 5000]))) + "\n" + body
             sc = {"label": label, "codec": codec, "bom": list(bom), "text": body}
             if bom and i % 3 == 0:
                 sc["option"] = rnd.choice(["utf-8", "windows-1252", "shift_jis"])      # a BOM overrides the option
@@ -822,7 +825,7 @@ def c17(tier):
     c.exhaustive = True
     return c.finish(
         rule="CliEnc.tla defines UTF-8 and UTF-16 (LE/BE, surrogate pairs) from their specifications and enumerates texts of <= 2 characters from {a, e-acute, euro, U+3000, an astral emoji} x 7 stored forms (with / without BOM) x 4 `encoding` options (a BOM must win) x damages (odd-length UTF-16, lone surrogate, invalid UTF-8 byte): "
-             "every scenario's input bytes and expected output bytes come from the model and are compared with the file written by the real binary and with its piped stdin->stdout; plus seed programs with non-ASCII comments / strings / identifiers in 13 encodings incl. legacy code pages and CJK multi-byte encodings (expected = BOM + encode(format(decode)))",
+             "every scenario's input bytes and expected output bytes come from the model and are compared with the file written by the real binary and with its piped stdin->stdout; a text that itself begins with U+FEFF after the real BOM keeps it; plus seed programs with non-ASCII comments / strings / identifiers in 21 encodings incl. legacy code pages, CJK multi-byte encodings and the stateful ISO-2022-JP, a quarter of them 20..400 KiB large (expected = BOM + encode(format(decode)); the written file must be accepted by --mode=check; the piped path must give the same bytes)",
         assumptions=["for legacy code pages the codec tables of Python / encoding_rs are trusted; the code under test is pasfmt's use of them"])
 
 
